@@ -30,6 +30,8 @@ def rewrites(lit):
 
 DECLS = [
     ("character(len=*), parameter :: s = {L}", 1),
+    ("character(len=*), parameter :: u = 'abcdefgh', s = {L}", 2),
+    ("character(len=*), parameter :: u = \"a longer literal first\", t = 'x', s = {L}", 3),
     ("character(len=20) :: s = {L}", 1),
     ("character(len=*), parameter :: t = \"1\", s = {L}", 2),
     ("character(len=*), parameter :: t = '0' // \"1\", s = {L}", 2),
@@ -43,7 +45,10 @@ def _initial_of(f):
 
 
 def replay_literal(w):
-    f = parserh.parse_concrete(["module m", w["decl"], "end module m"])
+    try:
+        f = parserh.parse_concrete(["module m", w["decl"], "end module m"])
+    except Exception as e:  # noqa
+        return True, {"declaration": w["decl"], "ford": "raised " + repr(e)[:200]}
     got = _initial_of(f)[-1]
     return got != w["expected"], {"declaration": w["decl"], "ford_initial": got, "source_literal_with_documented_rewrites": w["expected"]}
 
@@ -65,7 +70,13 @@ def literal(ctx):
         d = CV.choice(E, "decl", DECLS)
         decl = choice.apply(lambda t, l: t.replace("{L}", l), d[0], lit)
         h.state = (decl, lit)
-        f = parserh.parse(["module m", decl, "end module m"])
+        E.e.snapshot = lambda m: {"decl": choice.value_in_model(m, decl), "expected": rewrites(choice.value_in_model(m, lit))}
+        try:
+            f = parserh.parse(["module m", decl, "end module m"])
+        except (ValueError, IndexError, KeyError, AttributeError, TypeError) as e:
+            E.reachable("raised")
+            E.require(False, "parser fails on a valid declaration: " + type(e).__name__)
+            return
         inits = _initial_of(f)
         E.reachable("parsed")
         E.require(choice.apply(lambda n, k: n == k, len(inits), d[1]), "number of declared entities differs")
@@ -76,12 +87,11 @@ def literal(ctx):
     E = sym.Engine(ctx, max_paths=20000, incremental=True)
     found = E.explore(h)
     seen = set()
-    for label, m, pc in found:
+    for (label, m, pc), snap in zip(found, E.snapshots):
         if label in seen:
             continue
         seen.add(label)
-        decl, lit = h.state
-        ctx.report(label, {"decl": choice.value_in_model(m, decl), "expected": choice.value_in_model(m, h.want)}, replay_literal)
+        ctx.report(label, snap, replay_literal)
     if E.reached.get("parsed"):
         ctx.twins += 1
     else:
